@@ -43,6 +43,12 @@ Section D.
     intros V. unfold all_exist. apply forallb_ext_in'. intros k Hk. destruct (V k Hk) as [A _]. rewrite A. reflexivity.
   Qed.
 
+  Lemma preds_exist_ext E w wr t : same_view E w wr t -> preds_exist E wr t = preds_exist E w t.
+  Proof.
+    intros V. unfold preds_exist. apply forallb_ext_in'. intros k Hk.
+    destruct (V k) as [A _]; [unfold neighbours; apply in_or_app; left; exact Hk|]. rewrite A. reflexivity.
+  Qed.
+
   Lemma any_changed_ext E w wr t : same_view E w wr t -> any_changed E wr t = any_changed E w t.
   Proof.
     intros V. unfold any_changed. apply existsb_ext_in'. intros k Hk. destruct (V k Hk) as [A B].
@@ -61,7 +67,8 @@ Section D.
     assert (PF : persist_fires E wr t = persist_fires E w t).
     { unfold persist_fires. rewrite (all_exist_ext E w wr t V), (any_changed_ext E w wr t V). reflexivity. }
     assert (VE : verdict cd E w t = verdict c E wr t).
-    { unfold verdict. rewrite FE. destruct (force c); auto. symmetry. apply check_loop_ext.
+    { unfold verdict. rewrite FE, (preds_exist_ext E w wr t V). destruct (negb (preds_exist E w t)); auto.
+      destruct (force c); auto. symmetry. apply check_loop_ext.
       intros k Hk. apply V. exact Hk. }
     pose proof (run_task_spec body c E dyn_r desel wr t f) as SR.
     remember (run_task body c E dyn_r desel wr t f) as rr eqn:Er. clear Er.
